@@ -156,6 +156,20 @@ func buildArch(dir string, names []string, prot map[string][]byte, s, r, g int, 
 	}
 	index := filepath.Join(dir, base+".par2")
 	sandbox.WriteFile(filepath.Join(dir, "bystander.txt"), []byte("bystander"))
+	// bystanders whose names are derived from the names Create reads and writes (temporary-file, backup
+	// and editor conventions): Create must leave them alone
+	derived := []string{base + ".par2.tmp", base + ".par2~", base + ".par2.bak", base + ".vol00+01.par2.tmp", base + ".tmp"}
+	if len(names) > 0 {
+		derived = append(derived, names[0]+".tmp", names[0]+"~", names[len(names)-1]+".bak")
+	}
+	for _, dn := range derived {
+		sandbox.WriteFile(filepath.Join(dir, filepath.FromSlash(dn)), []byte("derived-name bystander "+dn))
+	}
+	defer func() {
+		for _, dn := range derived {
+			os.Remove(filepath.Join(dir, filepath.FromSlash(dn)))
+		}
+	}()
 	snapBefore, _ := sandbox.Take(dir)
 	err := par2.Create(index, paths, par2.CreateOptions{SliceByteCount: s, NumParityShards: r, NumGoroutines: g})
 	if err != nil {
